@@ -174,33 +174,15 @@ def run(chk):
         chk.ob("R3 constants agree", "R3|Command::try_from|decodes-what-encode-writes", okd, where(cd), "byte → variant table of the decoder: %s (encoder: %s)" % ({k: sorted(v) for k, v in dec.items()}, CMD))
     # encoders
     def writes(b):
-        """(range/index constants, source description) of buffer writes in an encoder"""
-        iv = intervals.Intervals(p, b)
-        Tb = flow.Terms(p, b)
+        """((lo, hi), source) of the positional writes of an encoder into the packet buffer it is given — range copies and
+        element stores alike, byte-wise integer stores merged, helpers it calls inlined (rules/layout.py)"""
+        from . import layout
+        vb = inline.inlined(p, b)
+        W = layout.positional_writes(p, vb, N)
+        roots = {w[0] for w in W if isinstance(w[0], tuple) and w[0][:1] == ("param",)}
         out = []
-        for bb, t in b.calls():
-            if names.call_is(t, "slice::copy_from_slice"):
-                st = iv.at(bb, "t")
-                pl = flow.op_place(t["args"][0])
-                d = iv.du.single_def(pl[0]) if pl else None
-                rng = None
-                # destination = index_mut(buf, range)
-                src = flow.simplify_term(Tb.operand(t["args"][1], bb, "t"))
-                dst = flow.simplify_term(Tb.operand(t["args"][0], bb, "t"))
-                im = find(dst, lambda x: is_call(x, "IndexMut::index_mut"))
-                if im is not None:
-                    r = im[2][1]
-                    if r[0] == "agg":
-                        dd = dict(r[3])
-                        rng = (dd.get("start", ("const", 0))[1] if dd.get("start", ("const", 0))[0] == "const" else None, dd.get("end", ("const", None))[1] if "end" in dd and dd["end"][0] == "const" else None)
-                out.append((rng, src))
-        for bb, blk in enumerate(b.blocks):
-            for i, s in enumerate(blk["stmts"]):
-                if s["k"] == "assign" and any(e["k"] == "index" for e in s["place"]["p"]):
-                    st = iv.at(bb, i)
-                    idxl = [e["l"] for e in s["place"]["p"] if e["k"] == "index"][0]
-                    ix = st.get(("i", idxl)) if st is not None else None
-                    out.append(((ix.exact(), ix.exact() + 1) if ix is not None and ix.exact() is not None else None, flow.simplify_term(Tb._rvalue(s["rv"], bb, i, 0))))
+        for r in sorted(roots, key=str):
+            out += [((lo, hi), src) for lo, hi, src in layout.grouped_writes(W, r)]
         return out
     wi = writes(ihe)
     wc = writes(che)
